@@ -18,11 +18,11 @@ RULE = ("altitudes -500..20000 m (uniform, plus 0, 11000 +- {0,1e-6,1}, 20000, -
         "CAS=EAS=TAS at sea level, TAS>=EAS and CAS>=EAS for h>=0, distance symmetric and within 0.5 m + 1e-9 d of haversine, bearing in [0,360); "
         "array results equal element-wise scalar results. non-trivial = altitude within 1 m of 0/11000/20000 or above the tropopause, speed > 250 m/s or < 5 m/s, "
         "antipodal/polar/antimeridian coordinate pairs"
-        ' Also: whole-number arguments as Python ints, int16/int32/int64/uint16 arrays, an altitude array updated in place between two calls.')
+        ' Also: whole-number arguments as Python ints, int16/int32/int64/uint16 arrays, an altitude array updated in place between two calls, a scalar speed with an altitude array and a speed array with a scalar altitude, single-precision (numpy.float32) calls at the same altitudes made earlier in the process, altitudes on the 25 m grid.')
 ASSUMPTIONS = ["ISA reference ref/isa.py (g0/(R L) = 5.25588) checked at import against tabulated ICAO values",
                "compressible round trips judged at 1e-6 relative: the impact-pressure formula cancels at low speed (measured worst 7e-9)"]
 
-ALT = st.one_of(gen.ufloat(-500, 20000), gen.ufloat(-500, 20000), gen.ufloat(-500, 20000),
+ALT = st.one_of(gen.ufloat(-500, 20000), gen.ufloat(-500, 20000), gen.ufloat(-500, 20000), gen.uint(-20, 800).map(lambda k: k * 25.0),
                 st.sampled_from([-500.0, 0.0, 11000.0, 11000.0 - 1e-6, 11000.0 + 1e-6, 10999.0, 11001.0, 20000.0, 1e-9]))
 SPD = st.one_of(gen.ufloat(0.5, 450), gen.ufloat(0.5, 450), st.sampled_from([0.5, 1.0, 5.0, 100.0, 340.0, 450.0]))
 MACH = st.one_of(gen.ufloat(0.001, 1.3), st.sampled_from([0.001, 0.5, 1.0, 1.3]))
@@ -89,7 +89,7 @@ def chk_table(c, note):
 
 @st.composite
 def s_conv(draw):
-    return {"h": draw(ALT), "v": draw(SPD), "v2": draw(SPD), "m": draw(MACH)}
+    return {"h": draw(ALT), "v": draw(SPD), "v2": draw(SPD), "m": draw(MACH), "pre32": draw(st.booleans())}
 
 
 PAIRS = [("tas2cas", "cas2tas", 1e-6), ("cas2tas", "tas2cas", 1e-6), ("tas2eas", "eas2tas", 1e-12), ("eas2tas", "tas2eas", 1e-12),
@@ -98,6 +98,15 @@ PAIRS = [("tas2cas", "cas2tas", 1e-6), ("cas2tas", "tas2cas", 1e-6), ("tas2eas",
 
 def chk_conv(c, note):
     h, v, v2, m = c["h"], c["v"], c["v2"], c["m"]
+    if c.get("pre32"):
+        # another caller of the same process works in single precision (values read from a float32 array) at the same altitudes, before us
+        for hv in (h, 0.0, float(int(round(h)))):
+            h32 = np.float32(hv)
+            for f in ("atmos", "vsound", "density"):
+                call(getattr(aero, f), h32)
+            call(aero.tas2cas, np.float32(v), h32)
+            call(aero.cas2mach, np.float32(v), h32)
+        note.cls("after-float32-calls")
     for f, g, tol in PAIRS:
         y = call(getattr(aero, f), v, h)
         if y[0] != "ok" or not fin(y[1]):
@@ -164,6 +173,13 @@ def chk_arrays(c, note):
         tol = 1e-6 if "cas" in f else 1e-12
         if np.shape(arr) != (len(sc),) or any(rel(float(a), b) > tol for a, b in zip(arr, sc)):
             return "%s on arrays %r, %r = %r but element-wise scalars give %r" % (f, c["v"], c["h"], arr, sc)
+        # one speed at many altitudes, many speeds at one altitude
+        for what, args, sc2 in (("(%r, array %r)" % (c["v"][0], c["h"]), (c["v"][0], H), [(c["v"][0], h) for h in c["h"]]),
+                                ("(array %r, %r)" % (c["v"], c["h"][0]), (V, c["h"][0]), [(v, c["h"][0]) for v in c["v"]])):
+            got = call(getattr(aero, f), *args)
+            exp = [float(getattr(aero, f)(a, b)) for a, b in sc2]
+            if got[0] != "ok" or np.shape(got[1]) != (len(exp),) or any(rel(float(a), b) > tol for a, b in zip(got[1], exp)):
+                return "%s%s -> %r but element-wise scalars give %r" % (f, what, got, exp)
     for f in ("pressure", "density", "temperature", "vsound"):
         arr = getattr(aero, f)(H)
         sc = [float(getattr(aero, f)(h)) for h in c["h"]]
